@@ -3,6 +3,6 @@
 cd /verif
 mkdir -p /tmp/thorough
 for c in "$@"; do
-  /usr/bin/time -o /tmp/thorough/$c.time -f "%e" env VERIF_EVIDENCE_DIR=/tmp/thorough/evidence VERIF_DUMP=/tmp/thorough/$c.dump ./check $c --tier thorough > /tmp/thorough/$c.log 2>&1
+  /usr/bin/time -o /tmp/thorough/$c.time -f "%e" env VERIF_FORCE_THOROUGH=1 VERIF_EVIDENCE_DIR=/tmp/thorough/evidence VERIF_DUMP=/tmp/thorough/$c.dump ./check $c --tier thorough > /tmp/thorough/$c.log 2>&1
   echo "$c exit=$? $(cat /tmp/thorough/$c.time)s" >> /tmp/thorough/summary.txt
 done
